@@ -283,6 +283,18 @@ def disconnect_rules(ctx, R4, repo, res):
     ctx.instance(R4, "disconnect[guard closed before the first await]", w is None and bool(closers),
                  "a suspension point is reachable after disconnect()'s guard before anything the guard tests is changed: a second caller (heartbeat task vs reader task) "
                  "passes the same guard - Logout sent twice, on_disconnect reported twice", loc(t.ast), g.describe(w or [])[-6:])
+    # (b2) whatever the guard closes is reopened on every exit - normal and exceptional - or a raising hook leaves every later disconnect() a no-op
+    flag_attrs = {a for a in guard_attrs if a != "self._connection_state"}
+    for fa in sorted(flag_attrs):
+        sets_ = [nd.id for nd in g.nodes if nd.kind == "stmt" and isinstance(nd.ast, ast.Assign) and unparse(nd.ast.targets[0]) == fa and unparse(nd.ast.value) == "True"]
+        clears_ = [nd.id for nd in g.nodes if nd.kind == "stmt" and isinstance(nd.ast, ast.Assign) and unparse(nd.ast.targets[0]) == fa and unparse(nd.ast.value) == "False"]
+        leak = None
+        for s_ in sets_:
+            for ex_ in (g.exit, g.raise_exit):
+                leak = leak or g.witness_path(s_, [ex_], avoid=set(clears_), exc=True)
+        ctx.instance(R4, f"disconnect[{fa} cleared on every exit]", bool(sets_) and bool(clears_) and leak is None,
+                     f"a path (e.g. an application hook raising inside disconnect) leaves disconnect() with {fa} still set: every later disconnect() - the watchdog's, "
+                     "the mismatch Logout - silently does nothing", loc(t.ast), g.describe(leak or [])[-6:])
     # (c) read loop re-checks the state before every decode
     from sa.decoder import ReaderView
     rv = ReaderView(repo)
